@@ -172,5 +172,37 @@ PROPS["C13"] = _diff("C13", "profiles cells / cells-closures: aliasing graphs (c
     "Judged: every read and every assignment's yielded value (through results) and the effect log vs a reference heap; cell contents reachable from the result compared up to identity isomorphism.",
     "runtime heap-model monitor vs reference evaluator (cells with identity)", {"agree-with-reference:A": 5000})
 
+PROPS["C19"] = {
+    "budget": {"quick": 50, "thorough": 420},
+    "rule": "30 array contents over boundary scalars (empty, ints incl. MIN/MAX, 0.0 vs -0.0, NaN, strings, mixed, nested arrays with empty parts, tuples) x 16 provenance paths producing that content "
+            "(literal, concatenation at each split incl. with [], slice of a longer array, [:] , ~ $], @ id $], ? p $], ? any $], both sides of \\, [v; n], a cell read, functions typed [any] / any) x all path pairs, "
+            "for equal contents and for contents of equal length or empty (the interesting unequal ones), with constant and with hidden (run-time) operands, plain and wrapped in tuples / structs / arrays: "
+            "a == b, b == a, a != b, b != a, value-arm match and a == a are compared with the reference equality (element-wise, floats IEEE, different kinds unequal). Plus a checklist of scalar / cross-kind / function / cell identity cases "
+            "and host-built arrays with every stored element type compared through Variable == and in-language. distinct_nontrivial = distinct comparison programs.",
+    "assumptions": COMMON_ASSUME + ["reference equality = the documented one, implemented in the harness over its own content representation"],
+    "floors": {"quick": {"evaluations": 100000, "shape:path_pairs": 256, "expected-equal": 10000, "expected-unequal": 20000, "host-built-pairs": 10000, "scalar-cases-held": 150},
+               "thorough": {"evaluations": 300000, "shape:path_pairs": 256, "expected-equal": 50000, "expected-unequal": 50000, "host-built-pairs": 10000, "scalar-cases-held": 150}},
+    "technique": "runtime provenance monitor: equal / unequal contents built along every pair of array-producing paths, compared with a reference equality",
+    "level_text": "Every pair of provenance paths is exercised for every listed content pair through the real parser / folder / interpreter (constant and run-time operands) and through the host API; exhaustive over the listed contents x paths, nothing beyond.",
+    "level_note": "contents and paths are the listed finite sets; deeper nestings only in the thorough tier",
+    "exhaustive": True,
+}
+
+PROPS["C14"] = {
+    "budget": {"quick": 50, "thorough": 480},
+    "rule": "all ordered pairs of the 19 binary operators of levels 4-13 (** * / % + - << >> & ^ | == != < <= > >= && ||) as chains `a op1 b op2 c` under all 8 int/bool operand typings x 3 operand value sets, "
+            "all 6859 chains of three operators (6 operand typings, 1 random operand draw in quick, 8 in thorough), each written with and without spaces, with constant and with hidden (run-time) operands: the unparenthesised text must evaluate (value, "
+            "error kind or rejection) like the full parenthesisation the documented 14-level table prescribes, evaluated by the harness's own precedence-climbing evaluator and through the real parser on the parenthesised text; "
+            "a case counts as discriminating only if another grouping (all-left or all-right) gives a different outcome or is ill-typed. Plus 80 fixed templates for postfix vs prefix, prefix vs iterator level vs **, "
+            "iterator-level associativity, `? type`, right-associative assignments (all 12), and maximal-munch spellings. distinct_nontrivial = distinct expression texts.",
+    "assumptions": COMMON_ASSUME + ["the table is the one in docs/operators.md, encoded in c14.rs"],
+    "floors": {"quick": {"discriminating-cases": 60000, "shape:operator_chains_discriminated": 3000, "templates": 75},
+               "thorough": {"discriminating-cases": 400000, "shape:operator_chains_discriminated": 3000, "templates": 75}},
+    "technique": "runtime metamorphic value monitor: unparenthesised vs table-prescribed parenthesisation, with an independent precedence-climbing evaluator",
+    "level_text": "Every ordered operator pair (and in thorough every triple) is driven through the real parser with operand values that make different groupings observable; exhaustive over operator pairs/triples for the listed operand sets.",
+    "level_note": "operand values are a fixed small set; assignment, prefix, postfix and iterator levels are covered by fixed templates, not by the generic chains",
+    "exhaustive": True,
+}
+
 # properties deliberately not claimed (reason each); anything else missing from PROPS is simply not built yet
 NOT_APPLICABLE = {}
